@@ -136,6 +136,58 @@ def _timerange_cases():
     return out
 
 
+def _traverse_cases():
+    """webdav.traverse_resource (an async generator) on stand-in resource trees of height <= 2"""
+    import asyncio
+    import random
+    from xandikos import webdav
+    rng = random.Random(23)
+    q = lambda s: urllib.parse.quote(s, safe="")
+
+    class R:
+        def __init__(self, coll, members=()):
+            self.resource_types = [webdav.COLLECTION_RESOURCE_TYPE] if coll else []
+            self._m = list(members)
+
+        def members(self):
+            return list(self._m)
+    names = ["a.ics", "b c.ics", "x#y.vcf", "sub", "é", "a:b.vcf", "q?"]
+    out = []
+    for _ in range(250):
+        kind = rng.random()
+        if kind < 0.15:
+            enc_t, root = "F", R(False)
+        elif kind < 0.25:
+            enc_t, root = "C", R(True)
+        else:
+            ms, encs = [], []
+            for n in rng.sample(names, rng.randint(1, 4)):
+                k = rng.random()
+                if k < 0.5:
+                    ms.append((n, R(False)))
+                    encs.append(q(n) + "/F")
+                elif k < 0.7:
+                    ms.append((n, R(True)))
+                    encs.append(q(n) + "/C")
+                else:
+                    gs = rng.sample(names, rng.randint(1, 3))
+                    ms.append((n, R(True, [(g, R(False)) for g in gs])))
+                    encs.append(q(n) + "/C(" + "+".join(q(g) for g in gs) + ")")
+            enc_t, root = "C<" + ";".join(encs) + ">", R(True, ms)
+        href = rng.choice(["/user/cal", "/user/cal/", "/dav/x y", "/", ""])
+        depth = rng.choice(["0", "1", "1", "infinity", "2", ""])
+
+        async def run():
+            return [(h, r) async for h, r in webdav.traverse_resource(root, href, depth)]
+        try:
+            rows = asyncio.run(run())
+            want = "=" + ",".join("%s:%s" % (q(h), "C" if r.resource_types else "F") for h, r in rows)
+        except Exception as e:   # noqa: BLE001
+            want = "raise:" + type(e).__name__
+        out.append(("webdav.traverse_resource", "tv %s %s %s" % (enc_t, enc(href), enc(depth)), want, (enc_t, href, depth)))
+    return out
+
+
 def _pybool(f):
     try:
         return "1" if f() else "0"
@@ -151,6 +203,7 @@ def cases(modules):
         for h, c in grid_etag():
             out.append(("webdav.etag_matches", "etag %s %s" % (enc(h), enc(c)), _pybool(lambda: etag_matches(h, c)), (h, c)))
     if "Href" in modules:
+        out.extend(_traverse_cases())
         from xandikos.webdav import ensure_trailing_slash, href_to_path
         for s in _strs():
             out.append(("webdav.ensure_trailing_slash", "ets %s" % enc(s), enc(ensure_trailing_slash(s)), (s,)))
@@ -372,7 +425,7 @@ def cases(modules):
     return out
 
 
-LISTS = {"icalendar._unescape_text": 1, "git.GitStore.iter_changes": 4, "webdav._get_resources_by_hrefs": 2}
+LISTS = {"webdav.traverse_resource": 2, "icalendar._unescape_text": 1, "git.GitStore.iter_changes": 4, "webdav._get_resources_by_hrefs": 2}
 
 
 def _canon_fpk(text):
